@@ -81,7 +81,7 @@ pub fn judge_range_api(ctx: &Ctx, l: &mut Local, p: &Params, site: Site, start: 
     if dr.num_days() > 10_000 {
         return;
     }
-    let m = prayer_times_dt_rng(p, site.loc(), &dr);
+    let m = lib(|| json!({"range_api": case.to_value()}), || prayer_times_dt_rng(p, site.loc(), &dr));
     l.evals += 1;
     let mut want = vec![];
     let mut d = start;
@@ -96,7 +96,7 @@ pub fn judge_range_api(ctx: &Ctx, l: &mut Local, p: &Params, site: Site, start: 
     }
     for d in want {
         l.evals += 1;
-        if m[&d] != prayer_times_dt(p, site.loc(), d, None) {
+        if m[&d] != pt(p, site.loc(), d, None) {
             ctx.violation("range_value_equals_single_date_call", &format!("{}_{}", d, case.key()), case.to_value(), json!({"date": date_json(d), "range_value": fmt_r(&m[&d])}));
             return;
         }
